@@ -1,6 +1,9 @@
 package gen
 
 import (
+	"crypto/ecdsa"
+	"crypto/ed25519"
+	"crypto/elliptic"
 	"crypto/rand"
 	"crypto/rsa"
 	"crypto/x509"
@@ -164,19 +167,58 @@ func makeCertFull(key int, subject pkix.Name, rawSubject []byte, serial *big.Int
 		KeyUsage:           x509.KeyUsageDigitalSignature,
 		PublicKeyAlgorithm: x509.RSA,
 		// how the certificate itself is signed varies with the serial number (it must not matter to anything)
-		SignatureAlgorithm: []x509.SignatureAlgorithm{x509.SHA256WithRSA, x509.SHA256WithRSA, x509.SHA384WithRSA, x509.SHA512WithRSA}[serial.Bit(0)+2*serial.Bit(1)],
+		SignatureAlgorithm: []x509.SignatureAlgorithm{x509.SHA256WithRSA, x509.SHA256WithRSA, x509.SHA384WithRSA, x509.SHA512WithRSA,
+			x509.SHA256WithRSAPSS, x509.SHA256WithRSA, x509.SHA384WithRSAPSS, x509.SHA256WithRSAPSS}[serial.Bit(0)+2*serial.Bit(1)+4*serial.Bit(2)],
 	}
 	k := Keys()[key]
-	parent, signKey := tpl, k
+	return finishCert(tpl, &k.PublicKey, k, iss)
+}
+
+func finishCert(tpl *x509.Certificate, pub any, selfKey *rsa.PrivateKey, iss *issuer) (*x509.Certificate, error) {
+	parent, signKey := tpl, selfKey
 	if iss != nil {
 		parent = &x509.Certificate{Subject: iss.Name, RawSubject: iss.RawSubject}
 		signKey = Keys()[iss.Key]
 	}
-	der, err := x509.CreateCertificate(rand.Reader, tpl, parent, &k.PublicKey, signKey)
+	der, err := x509.CreateCertificate(rand.Reader, tpl, parent, pub, signKey)
 	if err != nil {
 		return nil, err
 	}
 	return x509.ParseCertificate(der)
+}
+
+var (
+	alienOnce sync.Once
+	alienPubs []any
+)
+
+// AlienTwin returns a certificate with the same issuer and serial as id whose subject key is not an RSA key at
+// all (kind 0: Ed25519, 1: ECDSA P-256, 2: ECDSA P-384). Nothing signed by id's key is valid under it.
+func AlienTwin(id Identity, kind int) (*x509.Certificate, error) {
+	alienOnce.Do(func() {
+		seed := make([]byte, ed25519.SeedSize)
+		copy(seed, "verif alien twin key")
+		alienPubs = append(alienPubs, ed25519.NewKeyFromSeed(seed).Public())
+		for _, c := range []elliptic.Curve{elliptic.P256(), elliptic.P384()} {
+			k, err := ecdsa.GenerateKey(c, rand.Reader)
+			if err != nil {
+				panic(err)
+			}
+			alienPubs = append(alienPubs, &k.PublicKey)
+		}
+	})
+	kind = ((kind % len(alienPubs)) + len(alienPubs)) % len(alienPubs)
+	now := time.Now().UTC().Truncate(time.Hour)
+	tpl := &x509.Certificate{
+		SerialNumber:       id.Cert.SerialNumber,
+		Subject:            id.Cert.Subject,
+		RawSubject:         id.Cert.RawSubject,
+		NotBefore:          now.Add(-48 * time.Hour),
+		NotAfter:           now.Add(10 * 365 * 24 * time.Hour),
+		KeyUsage:           x509.KeyUsageDigitalSignature,
+		SignatureAlgorithm: x509.SHA256WithRSA,
+	}
+	return finishCert(tpl, alienPubs[kind], nil, &issuer{Key: 0, Name: id.Cert.Issuer, RawSubject: id.Cert.RawIssuer})
 }
 
 func makeCert(key int, subject pkix.Name, serial *big.Int) (*x509.Certificate, error) {
